@@ -93,6 +93,12 @@ def M11():
         "    # Save pickle\n    dir_path = Path(root_dir) / \"0\" / str(sample_index)")
 
 
+def M15():
+    """copy() of a simulation setting drops the data seed (seed_data=None in the copy)"""
+    sub(SIM, "            algo_option=self.algo_option,\n            seed_data=self.seed_data,",
+        "            algo_option=self.algo_option,\n            seed_data=None,")
+
+
 MUT = {k: v for k, v in globals().items() if k.startswith("M") and callable(v)}
 
 if __name__ == "__main__":
